@@ -1,5 +1,6 @@
 """Several calls of the public entry points on ONE symbolic path (the later calls follow decisions already taken):
 C06 output types, C07 presentations, C15 purity / repeatability / history independence, C18 symmetries."""
+import os
 import itertools
 import z3
 from .common import *   # noqa: F401,F403
@@ -85,7 +86,7 @@ class Multi:
             c.report('sum-differs-from-contents', '%d sums for %d bins' % (len(sums), m)); return
         if m:
             c.check('sum-differs-from-contents', z3.And([zi(sums[i]) == zs[i] for i in range(m)]), 'a reported bin sum is not the total value of the items reported in that bin')
-        strict = not self.exact()
+        strict = not self.exact() or os.environ.get('VERIF_C06_STRICT') == '1'
         on = self.objname()
         def same_sums(got, kind):
             got = [zi(v) for v in got]
